@@ -130,7 +130,8 @@ fn skeleton(state: usize) -> GMappings {
 }
 
 fn product(out: &mut Out) {
-	let acts = |cur: &str| vec![GA::None, GA::Add("new".into()), GA::Remove(cur.into()), GA::Remove("wrong".into()),
+	// `Add(cur)`: an addition colliding with the IDENTICAL value is still a collision
+	let acts = |cur: &str| vec![GA::None, GA::Add("new".into()), GA::Add(cur.into()), GA::Remove(cur.into()), GA::Remove("wrong".into()),
 		GA::Edit(cur.into(), "new".into()), GA::Edit("wrong".into(), "new".into()), GA::Edit(cur.into(), cur.into())];
 	for state in 0..2 {
 		let t = skeleton(state).to_sexp();
